@@ -29,6 +29,11 @@ def fs(x):
     return frac_str(float(x))
 
 
+def str_frac(x):
+    x = F(x)
+    return str(x.numerator) if x.denominator == 1 else "%d/%d" % (x.numerator, x.denominator)
+
+
 def fmt_pt(p):
     return ",".join(fs(c) for c in p)
 
@@ -76,6 +81,13 @@ def hat1(a, b, k, i, x):
     return t if t > 0 else F(0)
 
 
+def hat1f(a, b, k, i, x):
+    """the same hat in floats -- exact for the dyadic lattice points the harness evaluates"""
+    h = (b - a) / 2 ** k
+    t = 1.0 - abs(x - (a + h * i)) / h
+    return t if t > 0 else 0.0
+
+
 def np_isclose(x, y):
     return abs(x - y) <= 1e-8 + 1e-5 * abs(y)
 
@@ -101,10 +113,12 @@ def make_function(dim, comps):
                     out.append(float(c[1].get(p, 0)))
                 else:
                     _, a, b, k, i = c
-                    v = F(1)
+                    v = 1.0
                     for d in range(dim):
-                        v *= hat1(a[d], b[d], k[d], i[d], p[d])
-                    out.append(float(v))
+                        v *= hat1f(a[d], b[d], k[d], i[d], p[d])
+                        if v == 0.0:
+                            break
+                    out.append(v)
             return out
 
     return TabFunction()
@@ -140,7 +154,29 @@ BOX_LENGTHS = [F(1), F(1), F(2), F(1, 2), F(3), F(3, 2), F(4), F(5, 4), F(1, 4)]
 FAR_STARTS = [F(1024), F(4096), F(-2048), F(8192)]
 
 
+def est_cost(cfg):
+    """total number of component-grid points of the scheme (drives the run time of one configuration)"""
+    dim, lmin, lmax = cfg["dim"], cfg["lmin"], cfg["lmax"]
+    n = lmax - lmin
+    tot = 0
+    for k in simplex(dim, lmin, lmax):
+        if sum(k) - dim * lmin >= n - dim + 1:
+            t = 1
+            for x in k:
+                t *= 2 ** x + 1
+            tot += t
+    return tot
+
+
 def gen_cfg(ctx, thorough, far=False):
+    """thorough tier: big configurations are thinned out (kept with probability 0.2) so that the budget buys breadth"""
+    while True:
+        cfg = gen_cfg0(ctx, thorough, far)
+        if far or not thorough or est_cost(cfg) <= 20000 or ctx.rng.random() < 0.2:
+            return cfg
+
+
+def gen_cfg0(ctx, thorough, far=False):
     r = ctx.rng
     if far:
         dim = r.choice([1, 1, 2])
@@ -332,6 +368,13 @@ class Runner:
             self.viol("count-mismatch", tags, case, {"what": "get_points_and_weights", "points": len(P), "weights": len(W)})
         if len(P) <= 6000:
             self.corr("pw", case, "|".join(fmt_pt(p) + ":" + fs(w) for p, w in zip(P, W)), drv.ask("pw"))
+        # the 1-D hats the harness uses as test functions are the model's `hatFn` (object of the hat theorems)
+        d = ctx.rng.randrange(dim)
+        k = ctx.rng.randint(lmin, lmax)
+        i = ctx.rng.randint(0, 2 ** k)
+        ts = [F(a[d]) + (F(b[d]) - F(a[d])) * ctx.rng.randint(0, 2 ** (k + 2)) / 2 ** (k + 2) for _ in range(6)]
+        self.corr("hat-function", dict(case, hat=[d, k, i]), "|".join(str_frac(hat1(a[d], b[d], k, i, t)) for t in ts),
+                  drv.ask("hat %s %s %d %d %s" % (fs(a[d]), fs(b[d]), k, i, ",".join(str_frac(t) for t in ts))))
         # malformed: level vector of the wrong length
         bad_lv = [lmin] * (dim + 1)
         try:
@@ -351,7 +394,9 @@ class Runner:
         tags = {"dim": dim, "lmin": lmin, "span": lmax - lmin, "boundary": bd}
         us = info["union"]
         interp_op = ctx.rng.random() < 0.5 if "interp_op" not in case else case["interp_op"]
-        case = dict(case, comps=[comp_to_case(c) for c in comps], xs=[list(p) for p in xs], coords=coords, interp_op=interp_op)
+        lv_one = info["scheme"][ctx.rng.randrange(len(info["scheme"]))][0] if "lv_one" not in case else tuple(case["lv_one"])
+        case = dict(case, comps=[comp_to_case(c) for c in comps], xs=[list(p) for p in xs], coords=coords, interp_op=interp_op,
+                    lv_one=list(lv_one))
         f = make_function(dim, comps)
         sc, grid, op = build(cfg, f, interp_op)
         try:
@@ -360,7 +405,6 @@ class Runner:
                 integral = np.array(integral, dtype=float).copy()
                 vals = np.array(sc(list(xs)), dtype=float)
                 gvals = np.array(sc.interpolate_grid([np.array(c) for c in coords]), dtype=float)
-                lv_one = info["scheme"][ctx.rng.randrange(len(info["scheme"]))][0] if "lv_one" not in case else tuple(case["lv_one"])
                 cg = [g for g in sc.scheme if tuple(int(x) for x in g.levelvector) == tuple(lv_one)][0]
                 one = np.array(sc.interpolate_points(list(xs), cg), dtype=float)
         except Exception as e:
@@ -501,6 +545,130 @@ def run_config(ctx, drv, cfg, bundles=None, far=False, nbundles=2, replaying=Non
     return R.ok, case
 
 
+# ------------------------------------------------------------------------------------------------ non-dyadic stream
+def run_nondyadic(ctx, cfg, subseed):
+    """oracle only, tolerance 1e-9 (the model is exact; floating-point rounding is not modelled): arbitrary real boxes
+    and values.  Point identity across component grids is bitwise in the implementation (linspace steps differ by
+    powers of two), which is what its own check_combi_scheme relies on."""
+    import random
+    r = random.Random(subseed)      # every draw below depends on the case alone (replayable)
+    dim, lmin, lmax, bd, a, b = cfg["dim"], cfg["lmin"], cfg["lmax"], cfg["bd"], cfg["a"], cfg["b"]
+    tags = {"dim": dim, "lmin": lmin, "span": lmax - lmin, "boundary": bd, "nondyadic": True}
+    case = {"cfg": cfg, "nondyadic": True, "subseed": subseed}
+    ok = True
+
+    def viol(probe, tg, detail):
+        nonlocal ok
+        if ctx.violation(probe, tg, case, detail):
+            ok = False
+
+    def close(x, y):
+        return abs(x - y) <= 1e-9 * max(1.0, abs(y))
+
+    def key(p):
+        """lattice index of a point at level lmax (identifies points up to rounding)"""
+        return tuple(int(round((p[d] - a[d]) / (b[d] - a[d]) * 2 ** lmax)) for d in range(dim))
+
+    f0 = make_function(dim, [("tab", {}, "zero")])
+    sc, grid, op = build(cfg, f0, False)
+    with quiet():
+        sc.set_combi_parameters(lmin, lmax)
+    scheme = [(tuple(int(x) for x in g.levelvector), int(round(float(g.coefficient)))) for g in sc.scheme]
+    coef_bitwise = {}
+    coef_at = {}
+    rep = {}
+    for lv, c in scheme:
+        with quiet():
+            pts = [tuple(float(x) for x in p) for p in sc.get_points_component_grid(list(lv))]
+            n_announced = int(sc.get_num_points_component_grid(list(lv), False))
+            p2, w2 = sc.get_points_and_weights_component_grid(list(lv))
+        if not (len(pts) == n_announced == len(w2) == len(p2)):
+            viol("count-mismatch", tags, {"levelvec": list(lv), "announced": n_announced, "returned": len(pts), "weights": len(w2)})
+        for p in pts:
+            kp = key(p)
+            if any(abs((p[d] - a[d]) / (b[d] - a[d]) * 2 ** lmax - kp[d]) > 1e-6 for d in range(dim)):
+                viol("union-is-sparse-grid", tags, {"what": "component-grid point off the level-lmax lattice", "point": list(p)})
+            coef_bitwise[p] = coef_bitwise.get(p, 0) + c
+            coef_at[kp] = coef_at.get(kp, 0) + c
+            rep.setdefault(kp, p)
+    # (a) identity of points up to rounding: the property's clause
+    badc = [(rep[q], v) for q, v in coef_at.items() if v != 1]
+    if badc:
+        viol("point-coefficient-sum", tags, {"points": [[list(p), v] for p, v in sorted(badc)[:5]]})
+    # union = sparse grid (lattice indices whose level vector lies in the simplex)
+    sgk = set()
+    for kk in simplex(dim, lmin, lmax):
+        axes = [[j * 2 ** (lmax - kk[d]) for j in (range(0, 2 ** kk[d] + 1) if bd else range(1, 2 ** kk[d]))] for d in range(dim)]
+        sgk.update(itertools.product(*axes))
+    if set(coef_at) != sgk:
+        viol("union-is-sparse-grid", tags, {"missing": sorted(sgk - set(coef_at))[:5], "extra": sorted(set(coef_at) - sgk)[:5]})
+    # (b) bitwise identity, which the code's own dictionaries (check_combi_scheme, the function cache, the distinct
+    # point count) rely on
+    badb = [(p, v) for p, v in coef_bitwise.items() if v != 1]
+    if badb:
+        viol("point-coefficient-sum-bitwise", tags, {"points": [[list(p), v] for p, v in sorted(badb)[:5]],
+                                                     "n_points_bitwise": len(coef_bitwise), "n_points": len(coef_at)})
+    us = sorted(rep.values())
+    false_bd = (not bd) and any(np_isclose(p[d], a[d]) or np_isclose(p[d], b[d]) for p in us for d in range(dim))
+    tags2 = dict(tags, false_boundary=bool(false_bd))
+    # one table (a function of the lattice index, hence insensitive to rounding of the coordinates) and one hat
+    tab = {q: r.uniform(-3, 3) for q in sorted(coef_at)}
+    I = simplex(dim, lmin, lmax)
+    k = r.choice(I)
+    i = [r.randint(0, 2 ** k[d]) if bd else r.randint(1, 2 ** k[d] - 1) for d in range(dim)]
+
+    from sparseSpACE.Function import Function
+
+    class FloatFunction(Function):
+        def output_length(self):
+            return 2
+
+        def eval(self, coordinates):
+            p = tuple(float(c) for c in coordinates)
+            v = 1.0
+            for d in range(dim):
+                v *= hat1f(a[d], b[d], k[d], i[d], p[d])
+            return [tab.get(key(p), 0.0), v]
+
+    f = FloatFunction()
+    sc, grid, op = build(cfg, f, r.random() < 0.5)
+    xs = list(us) if len(us) <= 200 else r.sample(us, 200)
+    rnd = [tuple(r.uniform(a[d], b[d]) for d in range(dim)) for _ in range(12)]
+    try:
+        with quiet():
+            _, _, integral = sc.perform_operation(lmin, lmax)
+            integral = np.array(integral, dtype=float).copy()
+            vals = np.array(sc(xs + rnd), dtype=float)
+    except Exception as e:
+        viol("exception", dict(tags, exc=type(e).__name__), {"exc": repr(e)[:300]})
+        return ok, case
+    bad = [(p, vals[n, 0], tab[key(p)]) for n, p in enumerate(xs) if not close(vals[n, 0], tab[key(p)])]
+    if bad:
+        viol("nodal-reproduction", dict(tags2, kind="table"), {"first": [list(bad[0][0]), bad[0][1], bad[0][2]], "n_bad": len(bad)})
+    hv = lambda p: float(np.prod([hat1f(a[d], b[d], k[d], i[d], p[d]) for d in range(dim)]))
+    bad = [(p, vals[n, 1], hv(p)) for n, p in enumerate(xs + rnd) if not close(vals[n, 1], hv(p))]
+    if bad:
+        viol("hat-interpolation", dict(tags2, level=list(k)), {"first": [list(bad[0][0]), bad[0][1], bad[0][2]], "n_bad": len(bad)})
+    exact = 1.0
+    for d in range(dim):
+        h = (b[d] - a[d]) / 2 ** k[d]
+        exact *= h / 2 if i[d] in (0, 2 ** k[d]) else h
+    if not close(integral[1], exact):
+        viol("hat-integral", dict(tags, level=list(k)), {"integral": float(integral[1]), "exact": exact})
+    ctx.count("nondyadic_configs")
+    return ok, case
+
+
+def gen_nondyadic(ctx):
+    r = ctx.rng
+    dim = r.choice([1, 2, 2, 3])
+    lmin = r.choice([1, 1, 2])
+    span = r.randint(0, 3 if dim <= 2 else 2)
+    a = [round(r.uniform(-3, 3), 3) for _ in range(dim)]
+    b = [a[d] + round(r.uniform(0.1, 4), 3) for d in range(dim)]
+    return {"dim": dim, "lmin": lmin, "lmax": lmin + span, "bd": r.random() < 0.5, "a": a, "b": b}
+
+
 def run(ctx):
     thorough = ctx.tier == "thorough"
     ctx.rule = ("StandardCombi on TrapezoidalGrid (boundary on/off), Integration/Interpolation; dim 1-4, lmin 1-3, lmax-lmin 0-4, "
@@ -508,12 +676,16 @@ def run(ctx):
                 "sparse tables, nodal unit functions and tensor hats of a level in the index set; a few far-from-origin boxes with "
                 "boundary off (np.isclose false-boundary class); model and implementation compared on scheme, points, weights, counts, "
                 "union, coefficient sums, combined points/weights, integral, interpolant at sparse-grid and random dyadic points, "
-                "interpolate_grid, one component interpolant; a case = one configuration (dim,lmin,lmax,boundary,box), non-trivial if "
+                "interpolate_grid, one component interpolant; plus a non-dyadic stream (arbitrary real boxes and values, oracle only, tolerance 1e-9); a case = one configuration (dim,lmin,lmax,boundary,box), non-trivial if "
                 "dim>=2 or lmax>lmin")
     drv = ctx.driver("drv_c02")
     n = 110 if not thorough else 1200
     budget = 80 if not thorough else 560
     nfar = 3 if not thorough else 10
+    for k in range(12 if not thorough else 80):   # non-dyadic stream: oracle only, tolerance 1e-9
+        cfg = gen_nondyadic(ctx)
+        ok, case = run_nondyadic(ctx, cfg, ctx.rng.getrandbits(32))
+        ctx.case(case, nontrivial=(cfg["dim"] >= 2 or cfg["lmax"] > cfg["lmin"]))
     for k in range(n):
         if ctx.time_left(budget) < 0:
             ctx.count("stopped_by_budget")
@@ -528,25 +700,35 @@ def run(ctx):
         if far:
             ctx.count("far_box")
         ctx.case(case, nontrivial=(cfg["dim"] >= 2 or cfg["lmax"] > cfg["lmin"]), sample=case if k in (nfar, nfar + 1) else None)
-        if not ok and (len(ctx.violations) + len(ctx.corr_breaks)) >= ctx.max_reports:
+        # a disagreement with the model alone is not a defect: keep searching for an input on which the property
+        # itself fails (the oracle runs on every case); stop early only once failing inputs were found
+        if len(ctx.violations) >= ctx.max_reports or (ctx.violations and k >= 20 + nfar):
             break
 
 
 def replay(ctx, rp):
     case = rp["case"]
+    if case.get("nondyadic"):
+        ok, _ = run_nondyadic(ctx, case["cfg"], case["subseed"])
+        known = sum(v[1] for v in ctx.known_hits.values() if v[0].get("probe") == rp.get("probe"))
+        print("replay: %s" % ("property holds on this configuration" if ok and not known else "REPRODUCED"))
+        for v in ctx.violations[:3]:
+            print("  violation:", v["probe"], str(v["detail"])[:400])
+        return 0 if ok and not known else 1
     drv = ctx.driver("drv_c02")
     rb = None
     if "comps" in case:
         rb = [{k: case[k] for k in ("comps", "xs", "coords", "interp_op", "lv_one") if k in case}]
     ok, _ = run_config(ctx, drv, case["cfg"], far=case.get("far", False), replaying=rb if rb is not None else [])
-    known = sum(v[1] for v in ctx.known_hits.values())
+    known = sum(v[1] for v in ctx.known_hits.values() if v[0].get("probe") == rp.get("probe"))
     print("replay: %s" % ("property holds and model agrees on this case" if ok and not known else "REPRODUCED"))
     for v in ctx.violations[:3]:
-        print("  violation:", v["probe"], v["detail"])
+        print("  violation:", v["probe"], str(v["detail"])[:400])
     for fid, (f, n) in ctx.known_hits.items():
-        print("  known finding:", fid, n)
+        if f.get("probe") == rp.get("probe"):
+            print("  known finding:", fid, n)
     for c in ctx.corr_breaks[:3]:
-        print("  disagreement:", c["observable"], c["detail"])
+        print("  disagreement:", c["observable"], str(c["detail"])[:400])
     for d in ctx._drivers:
         d.close()
     return 0 if ok and not known else 1
